@@ -138,6 +138,11 @@ type CustomKind struct {
 // Custom holds the registered custom kinds by TypeSpec.K.
 var Custom = map[string]*CustomKind{}
 
+// NamedStr is a defined string type: maps keyed by it are string-keyed maps.
+type NamedStr string
+
+var namedStrType = reflect.TypeOf(NamedStr(""))
+
 // Catalogue lets package cat register its compile-time types without an import cycle.
 var Catalogue = map[string]reflect.Type{}
 
@@ -161,6 +166,9 @@ func Build(t TypeSpec) reflect.Type {
 	case "slice":
 		return reflect.SliceOf(Build(*t.Elem))
 	case "map":
+		if t.Key == "nstr" {
+			return reflect.MapOf(namedStrType, Build(*t.Elem))
+		}
 		return reflect.MapOf(basic["string"], Build(*t.Elem))
 	case "mapk":
 		return reflect.MapOf(basic[t.Key], Build(*t.Elem))
@@ -274,6 +282,9 @@ func (t TypeSpec) GoString() string {
 	case "slice":
 		return "[]" + t.Elem.GoString()
 	case "map":
+		if t.Key == "nstr" {
+			return "map[spec.NamedStr]" + t.Elem.GoString()
+		}
 		return "map[string]" + t.Elem.GoString()
 	case "mapk":
 		return "map[" + t.Key + "]" + t.Elem.GoString()
